@@ -22,7 +22,7 @@ RULE = ('hist: hypothesis-generated histories (JSON lists of expression trees) o
         'list-of-(key,value) model with an independent op:same-key, plus the immutability invariant (every pooled '
         'object still equals its value at creation) after every step. non-trivial history = some pooled object is '
         'operand >= 2 times, or a cross-type same-key collision, or an out-of-bounds index occurs; distinct by '
-        'canonical step list. samekey: EXHAUSTIVE over all ordered pairs of the atom table x 11 expression shapes. '
+        'canonical step list. samekey: EXHAUSTIVE over all ordered pairs of the 100-atom table x 12 expression shapes. '
         'deq: fn:deep-equal on generated value pairs (second value = edited copy of the first).')
 ASSUMPTIONS = [
     'results are observed through token.evaluate() and the python accessors XPathMap.items() / XPathArray.items() '
@@ -33,7 +33,10 @@ ASSUMPTIONS = [
     'when several errors are possible in one expression any of their codes is accepted',
     'fn:deep-equal verdicts only where they do not depend on numeric promotion, untypedAtomic casting or the implicit '
     'timezone; array:sort only on arrays of single integers / single strings, or with the key function count#1 (stability)',
+    'a map constructor converts an xs:untypedAtomic key to xs:string (XPath 3.1 section 3.11.1); map:put / map:entry keep it',
     'keys of schema-derived types, NOTATION keys and function items as values are not generated',
+    'cases are decoded from hypothesis-drawn byte blocks (one block per step) instead of nested composite strategies: '
+    'generation was 60% of the run time; shrinking deletes blocks (= steps) and lowers bytes (= simpler choices)',
 ]
 FLOORS = {
     'hist:operand-reuse': (0.50, 'hist'),
@@ -430,9 +433,11 @@ def _bad(*rs):
             codes |= r[1]
         elif r[0] == 'nv':
             nv = r
+    if nv is not None:          # an undecided part may also raise: no verdict for the whole expression
+        return nv
     if codes:
         return ('e', codes)
-    return nv
+    return None
 
 
 def _collect_keys(value, out):
@@ -444,6 +449,20 @@ def _collect_keys(value, out):
         elif it[0] == 'A':
             for v in it[1]:
                 _collect_keys(v, out)
+
+
+def _model_atoms(value, out):
+    for it in value:
+        if it[0] == 'a':
+            if it not in out:
+                out.append(it)
+        elif it[0] == 'm':
+            for k, v in it[1]:
+                _model_atoms((k,), out)
+                _model_atoms(v, out)
+        elif it[0] == 'A':
+            for v in it[1]:
+                _model_atoms(v, out)
 
 
 def _ix(kind, size):
@@ -868,6 +887,9 @@ class Ev:
     def op_deq(self, e):
         t1, r1 = self.value(e[1])
         t2, r2 = self.value(e[2])
+        for r in (r1, r2):          # deep-equal compares every atom: all of them define the corner class of the case
+            if r[0] == 'v':
+                _model_atoms(r[1], self.s.keys)
         return self._apply(f'deep-equal({t1}, {t2})', (r1, r2),
                            lambda: (('a', 'boolean', 'true' if M.deep_equal(r1[1], r2[1]) else 'false'),))
 
